@@ -13,6 +13,7 @@ from ..evalx import Evaluator, Sym
 from ..report import Registry, chain, sub
 from ._helpers_rules_b import OrderFlow
 from . import _helpers_str_c as SC
+from . import _helpers_rob_D2 as RD
 
 R = Registry(
     "C12",
@@ -149,14 +150,44 @@ def r1(ctx):
             work[v2.args[0].id] = n
     ctx.require(set(work) == {params_p, cparams_p}, f"working copies list({params_p}) / list({cparams_p}) not found ({work})")
     L, CL = work[params_p], work[cparams_p]
-    loops = [n for n in walk_local(f.node) if isinstance(n, ast.While) and isinstance(n.test, ast.Name) and n.test.id in (L, CL)]
+    def _loop_test_list(t):
+        """`while L:` / `while len(L) > 0:` / `while len(L):` / `while L != []:` -> L"""
+        t = _strip_cast(t)
+        if isinstance(t, ast.Name):
+            return t.id
+        if isinstance(t, ast.Call) and call_name(t) == "len" and len(t.args) == 1 and isinstance(t.args[0], ast.Name):
+            return t.args[0].id
+        if isinstance(t, ast.Compare) and len(t.ops) == 1:
+            l, r = t.left, t.comparators[0]
+            if isinstance(l, ast.Call) and call_name(l) == "len" and len(l.args) == 1 and isinstance(l.args[0], ast.Name) \
+                    and isinstance(r, ast.Constant) and (
+                        (isinstance(t.ops[0], (ast.Gt, ast.NotEq)) and r.value == 0) or (isinstance(t.ops[0], ast.GtE) and r.value == 1)):
+                return l.args[0].id
+            if isinstance(l, ast.Name) and isinstance(t.ops[0], ast.NotEq) and isinstance(r, ast.List) and not r.elts:
+                return l.id
+        return None
+
+    loops = [n for n in walk_local(f.node) if isinstance(n, ast.While) and _loop_test_list(n.test) in (L, CL)]
     ctx.require(len(loops) == 1, f"batch loop `while {L}:` not found")
     w = loops[0]
     # (a) slices
     reads, dels = {}, {}
+
+    def _pairs(st):
+        """(target, value) pairs of an assignment, tuple assignments `a, b = x, y` taken apart"""
+        if isinstance(st, ast.AnnAssign) and st.value is not None:
+            return [(st.target, st.value)]
+        if not (isinstance(st, ast.Assign) and len(st.targets) == 1):
+            return []
+        t, v = st.targets[0], st.value
+        if isinstance(t, (ast.Tuple, ast.List)) and isinstance(v, (ast.Tuple, ast.List)) and len(t.elts) == len(v.elts) \
+                and not any(isinstance(x, ast.Starred) for x in list(t.elts) + list(v.elts)):
+            return list(zip(t.elts, v.elts))
+        return [(t, v)]
+
     for st in w.body:
-        if isinstance(st, ast.Assign) and len(st.targets) == 1:
-            t, v = st.targets[0], st.value
+        for t, v in _pairs(st):
+            v = _strip_cast(v)
             if isinstance(t, ast.Name) and isinstance(v, ast.Subscript) and isinstance(v.value, ast.Name) and v.value.id in (L, CL):
                 b = _slice_bounds(v)
                 ctx.require(b is not None, f"slice `{unparse(v)}` not understood")
@@ -166,7 +197,7 @@ def r1(ctx):
                 ctx.require(b is not None, f"slice store `{unparse(t)}` not understood")
                 empty = isinstance(v, (ast.List, ast.Tuple)) and not v.elts
                 dels[t.value.id] = (b, st, empty)
-        elif isinstance(st, ast.Delete):
+        if isinstance(st, ast.Delete):
             for t in st.targets:
                 if isinstance(t, ast.Subscript) and isinstance(t.value, ast.Name) and t.value.id in (L, CL):
                     b = _slice_bounds(t)
@@ -217,7 +248,7 @@ def r1(ctx):
                   f"exactly once per round", f"{f.module.path}:{w.lineno}", miss or twice)
 
     once(ynodes, "yield of the batch", f"{base}:one-yield-per-round")
-    ycall = g.node(ynodes[0]).stmt.value.value
+    ycall = _yielded_ctor(g.node(ynodes[0]).stmt.value.value, w)
     ctx.require(isinstance(ycall, ast.Call) and (call_name(ycall) or "").endswith("_InsertManyValuesBatch"), "batch loop does not yield _InsertManyValuesBatch(...)")
     ya = _ctor_args(ycall, fields)
     counter = ya.get("batchnum")
@@ -229,56 +260,79 @@ def r1(ctx):
         ctx.violation(f"{base}:counter-once-per-round", f"batch counter `{counter.id}` is never incremented in the batch loop", f"{f.module.path}:{w.lineno}")
     else:
         once(incs, f"`{counter.id} += 1`", f"{base}:counter-once-per-round")
-    # (c) the yielded batch carries the slices
+    # (c) the yielded batch carries the slices: the `batch` field IS the parameter slice (possibly through an alias),
+    # `sentinel_values` is computed from the compiled slice and from nothing that depends on the parameter slice
+    # (locals assigned in the round -- `vals = [...] if f else []` before the yield -- are followed)
     if L in reads and CL in reads:
         bname, cbname = reads[L][0], reads[CL][0]
-        good_b = isinstance(ya.get("batch"), ast.Name) and ya["batch"].id == bname
+        bfield = _alias_in(ya.get("batch"), w)
+        good_b = isinstance(bfield, ast.Name) and bfield.id == bname
         sv = ya.get("sentinel_values")
-        sv_names = {n.id for n in ast.walk(sv) if isinstance(n, ast.Name)} if sv is not None else set()
+        sv_names = RD.dep_closure(f.node, w, [sv], stop=(bname, cbname, L, CL)) if sv is not None else set()
         good_s = cbname in sv_names and bname not in sv_names
         ctx.check(good_b and good_s, f"{base}:batch-fields",
                   f"yielded batch: field `batch` <- `{unparse(ya.get('batch')) if ya.get('batch') is not None else '?'}` (want the slice `{bname}`), "
                   f"`sentinel_values` reads {sorted(sv_names & {bname, cbname})} (want the compiled slice `{cbname}`)",
                   f"batch={bname}, sentinel_values from {cbname}", f"{f.module.path}:{ycall.lineno}")
-    # (d) total_batches == number of rounds
+    # (d) total_batches == number of rounds.  The bookkeeping that leads to the value handed to the batch is
+    # *executed* for 480 (rows, page size) pairs: one formula, divmod + correction, ceil(), a helper local ... all count
+    # by their values, not by their spelling.
     tb = ya.get("total_batches")
-    ctx.require(isinstance(tb, ast.Name), "total_batches field is not a local")
-    tb_defs = [(v, st) for n, v, st in name_stores(f.node) if n == tb.id and v is not None]
-    ctx.require(len(tb_defs) == 1, f"`{tb.id}` bound {len(tb_defs)} times")
-    expr = tb_defs[0][0]
-    names = sorted({n.id for n in ast.walk(expr) if isinstance(n, ast.Name)} - {"math", "ceil", "int", "divmod", "bool", "max", "min"})
+    ctx.require(tb is not None, "total_batches field not passed")
     ctx.require(bound is not None, "slice bound is not a plain name")
-    ctx.require(bound in names, f"`{tb.id}` is not computed from the slice bound `{bound}` (uses {names})")
-    other = [n for n in names if n != bound]
-    ctx.require(len(other) == 1, f"`{tb.id}` = `{unparse(expr)}`: cannot identify the row-count variable among {other}")
-    # the row count variable must be len(<parameters>)
-    cnt_defs = [v for n, v, st in name_stores(f.node) if n == other[0] and v is not None]
-    ctx.require(len(cnt_defs) == 1 and isinstance(cnt_defs[0], ast.Call) and call_name(cnt_defs[0]) == "len"
-                and unparse(cnt_defs[0].args[0]) == params_p, f"`{other[0]}` is not len({params_p})")
+    in_loop = {id(x) for x in ast.walk(w)}
+    pre = [(n, v, st) for n, v, st in name_stores(f.node) if id(st) not in in_loop]
+    # names the value is computed from (before the loop); the page size `bound` is an input
+    rel, todo = set(), [x.id for x in ast.walk(tb) if isinstance(x, ast.Name)]
+    while todo:
+        n = todo.pop()
+        if n in rel or n == bound:
+            continue
+        rel.add(n)
+        for n2, v, st in pre:
+            if n2 == n:
+                src = v if v is not None else getattr(st, "value", None)
+                if src is not None:
+                    todo.extend(x.id for x in ast.walk(src) if isinstance(x, ast.Name))
+    rel -= set(f.params) | {"math", "ceil", "int", "divmod", "bool", "max", "min", "abs", "len", "cast", L, CL}
+    tb_stmts = [st for n, v, st in pre if n in rel]
+    reads_bound = [st for st in tb_stmts if any(isinstance(x, ast.Name) and x.id == bound for x in ast.walk(st))] or \
+        ([] if not any(isinstance(x, ast.Name) and x.id == bound for x in ast.walk(tb)) else [w])
+    ctx.require(reads_bound, f"total_batches `{unparse(tb)}` is not computed from the slice bound `{bound}` (uses {sorted(rel)})")
+    ctx.require(not any(n in rel for n, v, st in name_stores(w)), f"a local that total_batches is computed from ({sorted(rel)}) is rebound inside the batch loop")
     bad = None
+
+    def _len_of(rows, before_loop=True):
+        # the working copies have the full length only before the first round
+        return lambda txt: rows if txt in ((params_p, cparams_p, L, CL) if before_loop else (params_p, cparams_p)) else None
+
     try:
         for rows in range(1, 41):
             for size in range(1, 13):
-                got = _eval_arith(expr, {other[0]: rows, bound: size})
+                env = {bound: size}
+                reached = RD.exec_straight(f.node.body, env, rel, w, _len_of(rows))
+                ctx.require(reached, "batch loop not reached by straight-line execution of the function body")
+                got = RD.eval_arith(tb, env, _len_of(rows, False))
                 if got != -(-rows // size):
                     bad = (rows, size, got, -(-rows // size))
                     break
             if bad:
                 break
-    except KeyError as e:
-        ctx.error(f"cannot evaluate `{unparse(expr)}`: {e}")
+    except RD.NotEvaluable as e:
+        ctx.error(f"cannot evaluate total_batches `{unparse(tb)}`: {e}")
+    tb_text = "; ".join(dict.fromkeys(unparse(st)[:70].replace("\n", " ") for st in tb_stmts if st in reads_bound)) or unparse(tb)
     ctx.check(bad is None, f"{base}:total-batches",
-              f"`{tb.id} = {unparse(expr)}` gives {bad[2] if bad else ''} for {bad[0] if bad else ''} rows with page size "
+              f"`{tb_text}` gives {bad[2] if bad else ''} for {bad[0] if bad else ''} rows with page size "
               f"{bad[1] if bad else ''}; the loop runs {bad[3] if bad else ''} rounds",
-              f"`{unparse(expr)}` == ceil(rows/size) on 480 (rows, size) pairs", f"{f.module.path}:{tb_defs[0][1].lineno}")
+              f"`{tb_text}` == ceil(rows/size) on 480 (rows, size) pairs", f"{f.module.path}:{reads_bound[0].lineno}")
     # the bound is not changed after total_batches was computed / inside the loop
     if bound:
         bstores = [n.id for n in g.nodes if n.kind == "stmt" and isinstance(n.stmt, (ast.Assign, ast.AugAssign, ast.AnnAssign))
                    and any(isinstance(t, ast.Name) and t.id == bound for t in _targets(n.stmt))]
-        tbn = g.nodes_for(tb_defs[0][1])
+        tbn = [n for st in reads_bound for n in g.nodes_for(st)]
         late = [g.node(b).describe() for b in bstores if tbn and g.witness(tbn, [b]) is not None]
         ctx.check(not late, f"{base}:bound-stable",
-                  f"the page size `{bound}` is reassigned after `{tb.id}` was computed: {late}",
+                  f"the page size `{bound}` is reassigned after `{unparse(tb)}` was computed: {late}",
                   f"`{bound}` fixed before the first round", f.loc)
     # (e) row-at-a-time branch
     fors = [n for n in walk_local(f.node) if isinstance(n, ast.For) and any(isinstance(x, ast.Yield) for x in ast.walk(n))
@@ -286,30 +340,68 @@ def r1(ctx):
     ctx.require(len(fors) == 1, "row-at-a-time loop not found")
     fr = fors[0]
     it = _strip_cast(fr.iter)
-    start1 = False
+    start1 = enumerated0 = False
     if isinstance(it, ast.Call) and call_name(it) == "enumerate":
         start1 = (len(it.args) == 2 and unparse(it.args[1]) == "1") or any(k.arg == "start" and unparse(k.value) == "1" for k in it.keywords)
+        enumerated0 = (len(it.args) == 1 and not it.keywords) or (len(it.args) == 2 and unparse(it.args[1]) == "0") \
+            or any(k.arg == "start" and unparse(k.value) == "0" for k in it.keywords)
         it = _strip_cast(it.args[0])
     zipped = isinstance(it, ast.Call) and call_name(it) == "zip" and [unparse(a) for a in it.args] == [params_p, cparams_p]
     ys = [n for n in ast.walk(fr) if isinstance(n, ast.Yield)]
     tgt_names = [n.id for n in ast.walk(fr.target) if isinstance(n, ast.Name)]
-    good = zipped and len(ys) == 1 and len(fr.body) == 1 and start1
+    # exactly one yield, executed unconditionally once per pair
+    y_top = len(ys) == 1 and any(isinstance(st, ast.Expr) and st.value is ys[0] for st in fr.body)
+    good = zipped and y_top
     detail = ""
     if good:
-        ra = _ctor_args(ys[0].value, fields)
+        rcall = _yielded_ctor(ys[0].value, fr)
+        ctx.require(isinstance(rcall, ast.Call) and (call_name(rcall) or "").endswith("_InsertManyValuesBatch"),
+                    "row-at-a-time loop does not yield _InsertManyValuesBatch(...)")
+        ra = _ctor_args(rcall, fields)
         # target = (batchnum, (param, cparam))
         ctx.require(len(tgt_names) == 3, f"row-at-a-time loop target `{unparse(fr.target)}` not (n, (param, compiled_param))")
         n_, p_, cp_ = tgt_names
-        b = ra.get("batch")
-        good = isinstance(b, ast.List) and len(b.elts) == 1 and unparse(b.elts[0]) == p_
+        b = _alias_in(ra.get("batch"), fr)
+        good = isinstance(b, ast.List) and len(b.elts) == 1 and unparse(_alias_in(b.elts[0], fr)) == p_
         sv = ra.get("sentinel_values")
-        svn = {x.id for x in ast.walk(sv) if isinstance(x, ast.Name)} if sv is not None else set()
-        good = good and cp_ in svn and p_ not in svn and unparse(ra.get("batchnum")) == n_ and unparse(ra.get("current_batch_size")) == "1"
-        detail = f"batch=[{p_}], sentinel from {cp_}, batchnum={n_}"
+        svn = RD.dep_closure(f.node, fr, [sv], stop=(p_, cp_)) if sv is not None else set()
+        num = _alias_in(ra.get("batchnum"), fr)
+        numbered = (start1 and unparse(num) == n_) or (not start1 and enumerated0 and unparse(num).replace(" ", "") in (f"{n_}+1", f"1+{n_}"))
+        good = good and cp_ in svn and p_ not in svn and numbered and unparse(_alias_in(ra.get("current_batch_size"), fr)) == "1"
+        detail = f"batch=[{p_}], sentinel from {cp_}, batchnum={unparse(num)}"
     ctx.check(bool(good), f"{base}:row-at-a-time",
               "row-at-a-time branch does not yield exactly one single-row batch per pair of zip(parameters, compiled_parameters) "
               "numbered from 1",
               detail, f"{f.module.path}:{fr.lineno}")
+
+
+def _region_binds(region, name):
+    """values bound to the plain local `name` by assignments inside `region` (None for a binding that is not a
+    plain `name = value`)"""
+    return [v for n, v, st in name_stores(region) if n == name]
+
+
+def _alias_in(e, region, depth=4):
+    """follow `x = <name / attribute / literal>` bound exactly once inside the region (a loop round)"""
+    while depth > 0 and isinstance(e, ast.Name):
+        vs = _region_binds(region, e.id)
+        if len(vs) != 1 or vs[0] is None:
+            break
+        v = _strip_cast(vs[0])
+        if not isinstance(v, (ast.Name, ast.Attribute, ast.Constant, ast.List, ast.Tuple)):
+            break
+        e, depth = v, depth - 1
+    return e
+
+
+def _yielded_ctor(e, region):
+    """`yield C(...)` or `b = C(...)` ... `yield b` (b bound once in the round)"""
+    e = _strip_cast(e)
+    if isinstance(e, ast.Name):
+        vs = _region_binds(region, e.id)
+        if len(vs) == 1 and vs[0] is not None:
+            return _strip_cast(vs[0])
+    return e
 
 
 def _targets(st):
@@ -334,88 +426,129 @@ def r2(ctx):
     g = ctx.cfg(f)
     pm = f.module.parents()
     base = f.key
-    # the accumulating list: `result` bound to [] under is_returning and stored on the context
-    exts = [c for c in calls_in(f.node) if isinstance(c.func, ast.Attribute) and c.func.attr in ("extend", "append")
-            and isinstance(c.func.value, ast.Name) and c.func.value.id == "result"]
-    if not exts:
-        exts = [c for c in calls_in(f.node) if isinstance(c.func, ast.Attribute) and c.func.attr == "extend" and isinstance(c.func.value, ast.Name)]
-    ctx.require(len(exts) >= 2, "result.extend(...) sites not found")
-    res = exts[0].func.value.id
+    defs = RD.single_defs(f.node)
+    # the accumulating list: the local that is published as context._insertmanyvalues_rows (else: `result`)
+    res = None
+    for n in walk_local(f.node):
+        if isinstance(n, ast.Assign) and any(isinstance(t, ast.Attribute) and t.attr == "_insertmanyvalues_rows" for t in n.targets):
+            cands = [t.id for t in n.targets if isinstance(t, ast.Name)] + ([n.value.id] if isinstance(n.value, ast.Name) else [])
+            if len(cands) == 1:
+                res = cands[0]
+    if res is None:
+        res = "result"
+    # sites where rows are added to it: res.extend(X) / res.append(X) / res += X / alias(X) with alias = res.extend
+    adders = {n for n, v in defs.items() if isinstance(v, ast.Attribute) and isinstance(v.value, ast.Name) and v.value.id == res
+              and v.attr in ("extend", "append")}
+    exts = []
+    for n in walk_local(f.node):
+        if isinstance(n, ast.Call) and len(n.args) == 1 and (
+                (isinstance(n.func, ast.Attribute) and n.func.attr in ("extend", "append") and isinstance(n.func.value, ast.Name)
+                 and n.func.value.id == res) or (isinstance(n.func, ast.Name) and n.func.id in adders)):
+            exts.append((n.args[0], n))
+        elif isinstance(n, ast.AugAssign) and isinstance(n.target, ast.Name) and n.target.id == res and isinstance(n.op, ast.Add):
+            exts.append((n.value, n))
+    ctx.require(len(exts) >= 2, f"sites adding rows to `{res}` not found")
     # the raw rows variable: bound from fetchall_for_returning
     rows = [n for n, v, st in name_stores(f.node) if isinstance(v, ast.Call) and (call_name(v) or "").endswith("fetchall_for_returning")]
     ctx.require(len(rows) == 1, "rows = context.fetchall_for_returning(cursor) not found")
     rows = rows[0]
-    # the sentinel branch condition
-    sent_ifs = [n for n in walk_local(f.node) if isinstance(n, ast.If)
-                and ("num_sentinel_columns", True) in [(a.rsplit(".", 1)[-1], p) for a, p in guard_atoms([(n.test, True)])]
-                and ("is_downgraded", False) in [(a.rsplit(".", 1)[-1], p) for a, p in guard_atoms([(n.test, True)])]]
-    ctx.require(len(sent_ifs) == 1, "`if imv.num_sentinel_columns and not imv_batch.is_downgraded:` not found")
-    sif = sent_ifs[0]
+    # the sentinel branch = where `<imv>.num_sentinel_columns` holds and `<batch>.is_downgraded` does not, however the
+    # branch is written (if / inverted if with early continue / nested ifs / a boolean local)
+    SENT = {("num_sentinel_columns", True), ("is_downgraded", False)}
+
+    def _short(atoms):
+        return {(RD.last_component(a), p) for a, p in atoms}
+
+    def _sentinel_side(st):
+        """'on' (both atoms established), 'off' (a dominating outcome refutes the sentinel condition), or None"""
+        guards = RD.guards_of(g, pm, f.node, st, defs)
+        if SENT <= _short(RD.atoms_of(guards)):
+            return "on"
+        for t, pol in guards:
+            neg = _short(RD.atoms_of([(t, not pol)]))
+            if neg and neg <= SENT:
+                return "off"
+        return None
+
     kinds = []
-    for c in exts:
+    for arg, c in exts:
         st = enclosing_stmt(pm, c)
-        in_body = any(a is sif for a in _ancestors(pm, st)) and _in_list(pm, st, sif.body)
-        arg = c.args[0]
+        side = _sentinel_side(st)
+        arg = RD.resolve(arg, defs)
+        val = RD.strip_cast(defs[arg.id]) if isinstance(arg, ast.Name) and arg.id in defs else arg
         if isinstance(arg, ast.Name) and arg.id == rows:
-            kind = "raw"
-        elif isinstance(arg, ast.Call) and call_name(arg) == "sorted" and arg.args and unparse(arg.args[0]) == rows:
-            kind = "sorted"
+            kind, srt = "raw", None
+        elif isinstance(val, ast.Call) and call_name(val) == "sorted" and val.args and unparse(RD.resolve(val.args[0], defs)) == rows:
+            kind, srt = "sorted", val
         elif isinstance(arg, ast.Name):
-            kind = "lookup:" + arg.id
+            kind, srt = "lookup:" + arg.id, None
         else:
-            kind = "other"
-        kinds.append((kind, in_body, c, st))
+            kind, srt = "other", None
+        kinds.append((kind, side == "on", c, st, side, srt))
+    ctx.require(any(side == "on" for *_, side, _s in kinds),
+                "no row delivery under `<imv>.num_sentinel_columns and not <batch>.is_downgraded` found")
     # (a) raw rows only off the sentinel branch; on it only sorted / lookup
-    bad = [f"`{unparse(c)[:50]}` ({k})" for k, inb, c, st in kinds if (inb and k in ("raw", "other")) or (not inb and k != "raw")]
+    bad = [f"`{unparse(c)[:50]}` ({k}{'' if side else ', not confined to either side of the sentinel test'})"
+           for k, inb, c, st, side, _s in kinds
+           if (inb and k in ("raw", "other")) or (not inb and k != "raw") or (k == "raw" and side != "off")]
     ctx.check(not bad and any(k == "raw" for k, *_ in kinds) and any(k == "sorted" for k, *_ in kinds) and any(k.startswith("lookup") for k, *_ in kinds),
               f"{base}:result-only-reordered-on-sentinel-branch",
               f"rows reach the result in the wrong form for their branch: {bad or [k for k, *_ in kinds]} -- with sentinel columns the "
               f"server's row order would be returned as if it were parameter order",
               "sentinel branch: sorted(rows)/lookup only; otherwise raw rows", f.loc)
     # (b) implicit sentinel: sorted by the LAST column (where the sentinel is appended)
-    for k, inb, c, st in kinds:
+    for k, inb, c, st, side, srt in kinds:
         if k != "sorted":
             continue
-        srt = c.args[0]
         keyf = [kw.value for kw in srt.keywords if kw.arg == "key"]
-        last = bool(keyf) and unparse(keyf[0]).replace(" ", "") in ("operator.itemgetter(-1)", "itemgetter(-1)", "lambdarow:row[-1]", "lambdar:r[-1]")
-        atoms = [(a.rsplit(".", 1)[-1], p) for a, p in guard_atoms(lexical_guards(pm, st, stop=f.node))]
+        last = bool(keyf) and _selects_last(RD.resolve(keyf[0], defs, pure_only=False))
+        srt_st = enclosing_stmt(pm, srt)
+        atoms = _short(RD.atoms_of(RD.guards_of(g, pm, f.node, st, defs))) | _short(RD.atoms_of(RD.guards_of(g, pm, f.node, srt_st, defs)))
         # ascending: Table._sentinel_column_characteristics only admits generators that count upwards (C12-R5)
         ascending = not any(kw.arg == "reverse" and not (isinstance(kw.value, ast.Constant) and kw.value.value is False)
                             for kw in srt.keywords)
         ctx.check(last and ascending and ("implicit_sentinel", True) in atoms, f"{base}:implicit-sentinel-sort",
                   f"`{unparse(srt)[:70]}` is not an ascending sort on the last (sentinel) column under `imv.implicit_sentinel`",
                   "sorted(rows, key=last column) under implicit_sentinel", f"{f.module.path}:{c.lineno}")
-    # (c) lookup in parameter order, dominated by the cardinality check
-    for k, inb, c, st in kinds:
+    # (c) lookup in parameter order, dominated by the cardinality check.  The looked-up list is described by how it
+    # is built -- `[T[k] for k in <batch>.sentinel_values]`, or `x = []` + `for k in <batch>.sentinel_values:
+    # x.append(T[k])` -- not by the syntax used to build it.
+    for k, inb, c, st, side, _s in kinds:
         if not k.startswith("lookup:"):
             continue
         nm = k.split(":", 1)[1]
-        defs = [(v, s2) for n, v, s2 in name_stores(f.node) if n == nm and v is not None]
-        ctx.require(len(defs) == 1 and isinstance(defs[0][0], ast.ListComp), f"`{nm}` is not one list comprehension")
-        comp, cst = defs[0]
-        gen = comp.generators[0]
-        by_param = isinstance(gen.iter, ast.Attribute) and gen.iter.attr == "sentinel_values" and len(comp.generators) == 1 and not gen.ifs
-        elt = comp.elt
+        builds = RD.list_builds(f.node, nm, pm)
+        ctx.require(builds is not None, f"`{nm}` is changed in a way that is not understood")
+        fills = [b for b in builds if b.form in ("comp", "loop")]
+        ctx.require(len(fills) == 1 and not any(b.form == "other" for b in builds),
+                    f"`{nm}` is not built by one comprehension / one append loop ({[b.form for b in builds]})")
+        bld = fills[0]
+        cst = bld.stmt
+        it = RD.resolve(bld.iter, defs)
+        by_param = isinstance(it, ast.Attribute) and it.attr == "sentinel_values" and not bld.ifs
+        elt = bld.elt
         table = elt.value.id if isinstance(elt, ast.Subscript) and isinstance(elt.value, ast.Name) else None
-        keyed = table is not None and unparse(elt.slice) == unparse(gen.target)
-        ctx.check(by_param and keyed, f"{base}:lookup-in-parameter-order",
-                  f"`{nm} = {unparse(comp)[:80]}` does not map each entry of <batch>.sentinel_values (parameter order) to its row",
-                  f"[{table}[k] for k in <batch>.sentinel_values]", f"{f.module.path}:{cst.lineno}")
+        keyed = table is not None and unparse(elt.slice) == unparse(bld.target)
+        stale = RD.loop_builds_fresh(g, builds) if bld.form == "loop" else None
+        ctx.check(by_param and keyed and stale is None, f"{base}:lookup-in-parameter-order",
+                  f"`{nm} = {bld.text()[:80]}` does not map each entry of <batch>.sentinel_values (parameter order) to its row"
+                  + ("" if stale is None else f" (`{nm}` is not emptied before each filling: rows of an earlier batch are delivered again)"),
+                  f"[{table}[k] for k in <batch>.sentinel_values]", f"{f.module.path}:{cst.lineno}", stale)
         if table is None:
             continue
         # cardinality check dominates
-        node = g.nodes_for(cst)
+        node = g.nodes_for(bld.holder)
         ctx.require(node, "lookup statement not in CFG")
         guards = g.edge_guards(node[0])
         card = False
-        for t, pol in guards:
+        for t0, pol in guards:
+            t = RD.expand(t0, defs)
             if isinstance(t, ast.Compare) and len(t.ops) == 1 and isinstance(t.ops[0], (ast.NotEq, ast.Eq)):
                 sides = {unparse(t.left).replace(" ", ""), unparse(t.comparators[0]).replace(" ", "")}
                 if f"len({table})" in sides and any(s.startswith("len(") and s.endswith(".batch)") for s in sides):
                     card = (isinstance(t.ops[0], ast.NotEq) and pol is False) or (isinstance(t.ops[0], ast.Eq) and pol is True)
                     # the failing outcome must raise the documented error
-                    tn = [n.id for n in g.nodes if n.kind == "test" and n.stmt.test is t]
+                    tn = [n.id for n in g.nodes if n.kind == "test" and n.stmt.test is t0]
                     lab = "true" if isinstance(t.ops[0], ast.NotEq) else "false"
                     fail = [b for b, l in g.succ[tn[0]] if l == lab] if tn else []
                     reach = g.reachable(fail, avoid=node, edge_ok=lambda a, b, l: True)
@@ -426,7 +559,7 @@ def r2(ctx):
                   f"the lookup of rows by sentinel is not dominated by `len({table}) != len(<batch>.batch)` -> raise InvalidRequestError: "
                   f"duplicate or missing sentinel values could be returned silently",
                   f"len({table}) == len(batch) established before the lookup", f"{f.module.path}:{cst.lineno}")
-        # KeyError -> documented error
+        # KeyError -> documented error (the statement that evaluates T[k] is what must be covered)
         tries = enclosing_try(pm, cst)
         handled = False
         for t, part in tries:
@@ -465,6 +598,15 @@ def r2(ctx):
               f"`{a.id}` passed to the batch generator is not `imv.sort_by_parameter_order` under RETURNING and False otherwise "
               f"(bindings: {[unparse(st)[:50] for _, st in binds]})",
               "imv.sort_by_parameter_order if is_returning else False", f.loc)
+
+
+def _selects_last(keyf) -> bool:
+    """sort key that reads the last column of a row: operator.itemgetter(-1) / lambda r: r[-1]"""
+    if isinstance(keyf, ast.Call) and (call_name(keyf) or "").rsplit(".", 1)[-1] == "itemgetter":
+        return len(keyf.args) == 1 and unparse(keyf.args[0]) == "-1"
+    if isinstance(keyf, ast.Lambda) and len(keyf.args.args) == 1 and isinstance(keyf.body, ast.Subscript):
+        return isinstance(keyf.body.value, ast.Name) and keyf.body.value.id == keyf.args.args[0].arg and unparse(keyf.body.slice) == "-1"
+    return False
 
 
 def _in_list(pm, st, lst):
@@ -684,3 +826,106 @@ R.mutant("benign-r5-negative-test-in-a-local", "sql/schema.py",
 R.mutant("benign-r5-explicit-test-first", "sql/schema.py",
          sub("                if the_sentinel_zero.identity._increment_is_negative:\n                    if sentinel_is_explicit:\n                        raise exc.InvalidRequestError(\n                            \"Can't use IDENTITY default with negative \"\n                            \"increment as an explicit sentinel column\"\n                        )\n                    else:\n",
              "                if the_sentinel_zero.identity._increment_is_negative:\n                    if not sentinel_is_explicit:\n                        pass\n                    else:\n                        raise exc.InvalidRequestError(\n                            \"Can't use IDENTITY default with negative \"\n                            \"increment as an explicit sentinel column\"\n                        )\n                    if True:\n"), None)
+
+# ---- rob-D2: benign refactoring families (stored diffs rfD_10 / rfD_11 and relatives) + the breaking twins that the
+# ---- generalised recognisers must still catch
+_YIELD_SENT = (
+    "                batch,\n"
+    "                (\n"
+    "                    [_sentinel_from_params(cb) for cb in compiled_batch]\n"
+    "                    if _sentinel_from_params\n"
+    "                    else []\n"
+    "                ),\n"
+)
+_YIELD_HEAD = "            yield _InsertManyValuesBatch(\n                replaced_statement,\n"
+R.mutant("benign-rob-sentinel-list-in-a-local-before-the-yield", COMP,
+         chain(sub(_YIELD_SENT, "                batch,\n                batch_sentinel_values,\n"),
+               sub(_YIELD_HEAD,
+                   "            batch_sentinel_values: List[Any]\n            if _sentinel_from_params:\n"
+                   "                batch_sentinel_values = [\n                    _sentinel_from_params(cb) for cb in compiled_batch\n                ]\n"
+                   "            else:\n                batch_sentinel_values = []\n\n" + _YIELD_HEAD)), None)
+R.mutant("rob-sentinel-local-computed-from-the-parameter-slice", COMP,
+         chain(sub(_YIELD_SENT, "                batch,\n                batch_sentinel_values,\n"),
+               sub(_YIELD_HEAD,
+                   "            if _sentinel_from_params:\n"
+                   "                batch_sentinel_values = [\n                    _sentinel_from_params(cb) for cb in batch\n                ]\n"
+                   "            else:\n                batch_sentinel_values = []\n\n" + _YIELD_HEAD)), "C12-R1")
+R.mutant("benign-rob-batch-object-bound-before-the-yield", COMP,
+         chain(sub(_YIELD_HEAD, "            this_batch = _InsertManyValuesBatch(\n                replaced_statement,\n"),
+               sub("                sort_by_parameter_order,\n                False,\n            )\n            batchnum += 1\n",
+                   "                sort_by_parameter_order,\n                False,\n            )\n            yield this_batch\n            batchnum += 1\n")), None)
+R.mutant("benign-rob-slices-by-tuple-assignment-and-del", COMP,
+         sub("            batch = batches[0:batch_size]\n            compiled_batch = compiled_batches[0:batch_size]\n\n            batches[0:batch_size] = []\n            compiled_batches[0:batch_size] = []\n",
+             "            batch, compiled_batch = (\n                batches[0:batch_size],\n                compiled_batches[0:batch_size],\n            )\n            del batches[0:batch_size], compiled_batches[0:batch_size]\n"), None)
+R.mutant("rob-tuple-assignment-slices-with-different-bounds", COMP,
+         sub("            batch = batches[0:batch_size]\n            compiled_batch = compiled_batches[0:batch_size]\n\n",
+             "            batch, compiled_batch = (\n                batches[0:batch_size],\n                compiled_batches[0 : batch_size - 1],\n            )\n\n"), "C12-R1")
+_TB = "        total_batches = lenparams // batch_size + (\n            1 if lenparams % batch_size else 0\n        )"
+R.mutant("benign-rob-total-batches-divmod-and-correction", COMP,
+         sub(_TB, "        total_batches, _partial = divmod(lenparams, batch_size)\n        if _partial:\n            total_batches += 1"), None)
+R.mutant("rob-total-batches-divmod-without-correction", COMP,
+         sub(_TB, "        total_batches, _partial = divmod(lenparams, batch_size)"), "C12-R1")
+R.mutant("benign-rob-total-batches-from-helper-locals", COMP,
+         sub(_TB, "        full_batches = lenparams // batch_size\n        has_partial = lenparams % batch_size != 0\n        total_batches = full_batches + (1 if has_partial else 0)"), None)
+R.mutant("benign-rob-batch-loop-tests-len", COMP, sub("        while batches:\n", "        while len(batches) > 0:\n"), None)
+R.mutant("benign-rob-row-at-a-time-zero-based-enumerate", COMP,
+         chain(sub("                    zip(parameters, compiled_parameters),\n                ),\n                1,\n            ):\n",
+                   "                    zip(parameters, compiled_parameters),\n                ),\n            ):\n"),
+               sub("                    1,\n                    batchnum,\n                    lenparams,\n", "                    1,\n                    batchnum + 1,\n                    lenparams,\n")), None)
+R.mutant("rob-row-at-a-time-zero-based-numbering", COMP,
+         sub("                    zip(parameters, compiled_parameters),\n                ),\n                1,\n            ):\n",
+             "                    zip(parameters, compiled_parameters),\n                ),\n            ):\n"), "C12-R1")
+# dialect level
+_LOOKUP_COMP = (
+    "                    try:\n"
+    "                        ordered_rows = [\n"
+    "                            rows_by_sentinel[sentinel_keys]\n"
+    "                            for sentinel_keys in imv_batch.sentinel_values\n"
+    "                        ]\n"
+)
+_LOOKUP_LOOP = (
+    "                    try:\n"
+    "                        for sentinel_keys in imv_batch.sentinel_values:\n"
+    "                            ordered_rows.append(\n"
+    "                                rows_by_sentinel[sentinel_keys]\n"
+    "                            )\n"
+)
+R.mutant("benign-rob-lookup-as-append-loop", DEF,
+         sub(_LOOKUP_COMP, "                    ordered_rows = []\n" + _LOOKUP_LOOP), None)
+R.mutant("benign-rob-lookup-as-append-loop-bound-method", DEF,
+         sub(_LOOKUP_COMP, "                    ordered_rows = []\n                    add_row = ordered_rows.append\n"
+             "                    try:\n                        for sentinel_keys in imv_batch.sentinel_values:\n"
+             "                            add_row(rows_by_sentinel[sentinel_keys])\n"), None)
+R.mutant("rob-lookup-loop-list-not-emptied-per-batch", DEF,
+         chain(sub(_LOOKUP_COMP, _LOOKUP_LOOP),
+               sub("        for imv_batch in compiled._deliver_insertmanyvalues_batches(\n",
+                   "        ordered_rows: List[Any] = []\n        for imv_batch in compiled._deliver_insertmanyvalues_batches(\n")), "C12-R2")
+R.mutant("rob-lookup-loop-in-server-order", DEF,
+         sub(_LOOKUP_COMP, "                    ordered_rows = []\n" + _LOOKUP_LOOP.replace("in imv_batch.sentinel_values:", "in rows_by_sentinel:")), "C12-R2")
+R.mutant("rob-lookup-loop-outside-the-keyerror-handler", DEF,
+         sub(_LOOKUP_COMP, "                    ordered_rows = []\n                    for sentinel_keys in imv_batch.sentinel_values:\n"
+             "                        ordered_rows.append(rows_by_sentinel[sentinel_keys])\n                    try:\n                        pass\n"), "C12-R2")
+R.mutant("benign-rob-sentinel-test-inverted-with-early-continue", DEF,
+         RD.ast_edit("DefaultDialect._deliver_insertmanyvalues_batches", RD.t_guard_continue("num_sentinel_columns")), None)
+R.mutant("benign-rob-sentinel-test-as-nested-ifs", DEF,
+         RD.ast_edit("DefaultDialect._deliver_insertmanyvalues_batches", RD.t_split_and("num_sentinel_columns")), None)
+R.mutant("benign-rob-sentinel-test-in-a-boolean-local", DEF,
+         sub("                if imv.num_sentinel_columns and not imv_batch.is_downgraded:\n",
+             "                match_by_sentinel = (\n                    imv.num_sentinel_columns and not imv_batch.is_downgraded\n                )\n                if match_by_sentinel:\n"), None)
+R.mutant("benign-rob-aliases-for-batch-size-and-sentinel-values", DEF,
+         chain(sub("                    if len(rows_by_sentinel) != len(imv_batch.batch):\n",
+                   "                    expected_rows = len(imv_batch.batch)\n                    if len(rows_by_sentinel) != expected_rows:\n"),
+               sub("                            for sentinel_keys in imv_batch.sentinel_values\n",
+                   "                            for sentinel_keys in wanted_keys\n"),
+               sub("                    try:\n                        ordered_rows = [\n",
+                   "                    wanted_keys = imv_batch.sentinel_values\n                    try:\n                        ordered_rows = [\n")), None)
+R.mutant("benign-rob-sorted-rows-in-a-local-lambda-key", DEF,
+         sub("                        result.extend(\n                            sorted(rows, key=operator.itemgetter(-1))\n                        )\n",
+             "                        in_order = sorted(rows, key=lambda row: row[-1])\n                        result.extend(in_order)\n"), None)
+R.mutant("rob-raw-rows-added-before-the-sentinel-test", DEF,
+         sub("                assert result is not None\n\n                if imv.num_sentinel_columns and not imv_batch.is_downgraded:\n",
+             "                assert result is not None\n                if not imv.implicit_sentinel:\n                    result.extend(rows)\n\n"
+             "                if imv.num_sentinel_columns and not imv_batch.is_downgraded:\n"), "C12-R2")
+R.mutant("rob-inverted-sentinel-test-delivers-raw-rows-on-the-sentinel-side", DEF,
+         sub("                if imv.num_sentinel_columns and not imv_batch.is_downgraded:\n",
+             "                if not imv.num_sentinel_columns and not imv_batch.is_downgraded:\n"), "C12-R2")
